@@ -336,6 +336,7 @@ func findBug(tb tb, deadline time.Time, checks int, seed uint64, prop func(*T)) 
 
 		seed += uint64(iter)
 		r.init(seed)
+		t.draws = 0 // draws are numbered within their test case, as in the replays of it
 		start := time.Now()
 		if t.shouldLog() {
 			t.Logf("[rapid] test #%v start (seed %v)", iter+1, seed)
